@@ -649,7 +649,10 @@ def axioms_for(formulas):
             out.append(z3.Implies(z3.InRe(a.arg(0), _NO_LOWER), a == a.arg(0)))
         if n == "py_lower":
             out.append(py_lower(a) == a)                      # lower is idempotent
-            out.append(py_lower(py_upper(py_lower(a.arg(0)))) == a)  # lower∘upper∘lower = lower (true for all code points? validated by bounded check)
+            # lower∘upper∘lower = lower holds for ASCII text only (false for 126 code points, e.g. 'ß' -> 'SS' -> 'ss', final sigma):
+            # checked by enumeration of every code point; an unguarded version of this axiom once made path conditions
+            # inconsistent with the ground facts of the refinement (vacuous proofs) - see DESIGN.md §10.3
+            out.append(z3.Implies(z3.InRe(a.arg(0), _ASCII), py_lower(py_upper(py_lower(a.arg(0)))) == a))
             out.append(z3.Implies(a.arg(0) == z3.StringVal(""), a == z3.StringVal("")))
             out.append((z3.Length(a) == 0) == (z3.Length(a.arg(0)) == 0))
         elif n == "py_upper":
@@ -695,6 +698,7 @@ def axioms_for(formulas):
     return out
 
 
+_ASCII = z3.Star(z3.Range("\x00", "\x7f"))
 _NO_UPPER = z3.Star(z3.Union(z3.Range(" ", "@"), z3.Range("[", "~")))
 _NO_LOWER = z3.Star(z3.Union(z3.Range(" ", "`"), z3.Range("{", "~")))
 
@@ -728,3 +732,49 @@ def _ascii_ends(x):
     last = z3.SubString(x, n - 1, 1)
     hi = z3.StringVal("\x7f")
     return z3.Or(n == 0, z3.And(first <= hi, last <= hi))
+
+
+def selftest_axioms():
+    """The string axioms above are claims about CPython.  The character-wise ones are checked here over EVERY code point, the
+    others on a fixed family of strings; returns the list of violated claims (must be empty).  Run by every check."""
+    bad = []
+    for cp in range(0x110000):
+        if 0xD800 <= cp <= 0xDFFF:
+            continue
+        c = chr(cp)
+        lo, up = c.lower(), c.upper()
+        if lo.lower() != lo:
+            bad.append(("lower-idempotent", hex(cp)))
+        if up.upper() != up:
+            bad.append(("upper-idempotent", hex(cp)))
+        if cp < 128 and lo.upper().lower() != lo:
+            bad.append(("lower-upper-lower(ascii)", hex(cp)))
+        if (len(lo) == 0) != (len(c) == 0) or (len(up) == 0) != (len(c) == 0):
+            bad.append(("empty-iff-empty", hex(cp)))
+        if lo[0] in DELIMS and lo[0] != c or up[0] in DELIMS and up[0] != c or lo[-1] in DELIMS and lo[-1] != c or up[-1] in DELIMS and up[-1] != c:
+            bad.append(("delimiters-not-created", hex(cp)))
+        if c in DELIMS and (lo != c or up != c):
+            bad.append(("delimiters-not-changed", hex(cp)))
+    import re as _re
+    for s in ["", "abc", "a b", " a ", "\ta\n", "x\x1cy", "\x85a\xa0", "ß", "ΑΣ", "(a)", "'q'", '"q"', "{a,b}", "/r/i", "#c", "A_B-1", "@", "[x]"]:
+        st = s.strip()
+        if st.strip() != st or len(st) > len(s) or st not in s:
+            bad.append(("strip", repr(s)))
+        if st and (st[0] in WS_CHARS or st[-1] in WS_CHARS):
+            bad.append(("strip-ends", repr(s)))
+        if _re.fullmatch(r"[ -@\[-~]*", s) and s.lower() != s:
+            bad.append(("no-upper-is-own-lower", repr(s)))
+        if _re.fullmatch(r"[ -`{-~]*", s) and s.upper() != s:
+            bad.append(("no-lower-is-own-upper", repr(s)))
+        for k in (-1, 0, 1, 3):
+            if len(s * k) != len(s) * max(k, 0):
+                bad.append(("rep-length", repr(s)))
+        for pat, new in (("a", "b"), ("zz", "y"), ("'", "\\'"), ("a", "a")):
+            r = s.replace(pat, new)
+            if pat not in s and r != s or pat == new and r != s:
+                bad.append(("replace", repr(s)))
+    for f in (0.0, -0.0, 1.5, -2.25, 1e-05, 1e16, 1e22, 5e-324, 1.7976931348623157e308, float("inf"), float("-inf"), float("nan")):
+        t = str(f)
+        if not t or t.strip() != t or t[0] in DELIMS or t[-1] in DELIMS:
+            bad.append(("float-str", t))
+    return bad
